@@ -65,10 +65,21 @@ def _mk_variant(rng, variant, N):
                     c = c.copy(); c[:, j] = rng.choice([1.0, -2.0, 0.5]) * c[:, 0]
                     t.cores[n] = c
                 elif c.ndim == 3 and c.shape[1] >= 2:
-                    c = c.copy(); c[:, -1, :] = 0.0
+                    c = c.copy(); c[:, rng.randrange(c.shape[1]), :] = 0.0          # an exactly zero slice, anywhere
                     t.cores[n] = c
-            if t.Us[n] is not None and rng.random() < 0.3 and t.Us[n].shape[1] >= 2:
-                U = t.Us[n].copy(); U[:, -1] = U[:, 0]
+            elif rng.random() < 0.25:
+                c = t.cores[n].copy()
+                if c.ndim == 3 and c.shape[2] >= 2:
+                    c[:, :, rng.randrange(c.shape[2])] = 0.0                         # an exactly zero bond column (exact zero QR pivot)
+                elif c.ndim == 2 and c.shape[1] >= 2:
+                    c[:, rng.randrange(c.shape[1])] = 0.0                            # a zero CP term
+                t.cores[n] = c
+            if t.Us[n] is not None and rng.random() < 0.4 and t.Us[n].shape[1] >= 2:
+                U = t.Us[n].copy()
+                if rng.random() < 0.5:
+                    U[:, -1] = U[:, 0]
+                else:
+                    U[:, rng.randrange(U.shape[1])] = 0.0                            # a pruned (all-zero) factor column, anywhere
                 t.Us[n] = U
     elif variant == "decay":
         qd = rng.choice([0.5, 0.1, 0.01])
